@@ -94,12 +94,13 @@ type server struct {
 	enableMode int
 	// cur is the capability set currently in force (cfg until a change is announced);
 	// changeInIdle makes the next IDLE announce `downgraded` once the client is idling
-	cur           capCfg
-	changeInIdle  bool
-	idleAnnounced chan struct{}
-	announceGo    chan struct{} // closed by the harness when the announcement may be sent
-	cmdStart      map[string]cmdInfo
-	done          chan struct{}
+	cur            capCfg
+	changeInIdle   bool
+	idleAnnounced  chan struct{}
+	announceGo     chan struct{} // closed by the harness when the announcement may be sent
+	unauthWithCode bool          // the OK to UNAUTHENTICATE carries a CAPABILITY code
+	cmdStart       map[string]cmdInfo
+	done           chan struct{}
 }
 
 type cmdInfo struct {
@@ -262,6 +263,18 @@ func (s *server) serve() {
 				return
 			}
 			fmt.Fprintf(s.conn, "%s OK done\r\n", tag)
+		case "UNAUTHENTICATE":
+			// RFC 8437: the extensions enabled on the connection are disabled again; the tagged OK may
+			// or may not carry the new capability list
+			s.mu.Lock()
+			s.enabled = false
+			withCode := s.unauthWithCode
+			s.mu.Unlock()
+			if withCode {
+				fmt.Fprintf(s.conn, "%s OK [CAPABILITY %s] unauthenticated\r\n", tag, s.cur.caps)
+			} else {
+				fmt.Fprintf(s.conn, "%s OK unauthenticated\r\n", tag)
+			}
 		case "AUTHENTICATE":
 			if len(f) < 4 {
 				s.conn.Write([]byte("+ \r\n"))
@@ -383,6 +396,20 @@ func runCase(w *hx.W, rng *rand.Rand, cfg capCfg) {
 		note("ENABLE UTF8=ACCEPT (server answer mode %d)", em)
 		// (a NO/BAD answer is a conformant outcome, not a failure of the dialogue)
 		wait("ENABLE", func() error { c.Enable(imap.CapUTF8Accept).Wait(); return nil })
+	}
+	if rng.Intn(6) == 0 && !hung {
+		// UNAUTHENTICATE puts the connection back to square one (enabled extensions included), then a
+		// new LOGIN with arbitrary strings
+		srv.mu.Lock()
+		srv.unauthWithCode = rng.Intn(2) == 0
+		wc := srv.unauthWithCode
+		srv.mu.Unlock()
+		note("UNAUTHENTICATE (OK with CAPABILITY code: %v), LOGIN again", wc)
+		wait("UNAUTHENTICATE", func() error { return c.Unauthenticate().Wait() })
+		u2, p2 := cls(), cls()
+		note("LOGIN <%s> <%s>", u2, p2)
+		setReacts(srv, rng, 2)
+		wait("LOGIN", c.Login(genStr(rng, u2), genStr(rng, p2)).Wait)
 	}
 	note("SELECT")
 	wait("SELECT", func() error { _, err := c.Select("INBOX", nil).Wait(); return err })
